@@ -561,7 +561,7 @@ impl<'a> Gen<'a> {
         }
         let sensitive = matches!(k, 0 | 3 | 4 | 5 | 6 | 8 | 9);
         let num_ty = *self.rng.pick(&[Ty::Int, Ty::Float]);
-        let (e, ty) = (match k {
+        let (e, ty) = match k {
             // ranking functions are UInt64 in the engine: cast so that set operations / comparisons with
             // BIGINT do not depend on the engine's unsigned/signed coercion choice (types are C30's business)
             0 => (Expr::Cast(Box::new(Expr::Win { f: WinFn::RowNumber, args: vec![], partition_by, order_by: total_order(self, lead), frame: None }), Ty::Int), Ty::Int),
@@ -616,7 +616,7 @@ impl<'a> Gen<'a> {
                 let frame = Some(self.frame(FrameUnit::Range));
                 (Expr::Win { f, args: vec![self.expr(sc, Ty::Int, 1)], partition_by, order_by, frame }, Ty::Int)
             }
-        });
+        };
         Some((e, ty, sensitive))
     }
 
